@@ -73,6 +73,7 @@ func verifIPFIXReference(body []byte, i int, cache ipfix.MemCache) (out []byte, 
 }
 
 func verifIPFIXWorker(c13 bool) {
+	verifAgentInMessage = true
 	size := 64
 	verifPoolSize = size
 	verifPoolBufs = nil
@@ -132,6 +133,12 @@ func verifIPFIXWorker(c13 bool) {
 			q := <-ipfixMQCh
 			if !c13 {
 				verifAssert(verifStrEq(string(q), string(want[i])), "C12: the published message is exactly what decoding this datagram on its own produces")
+				// (the reference above runs the same decoder in the same process; what must not
+				// depend on process-wide state is checked against the datagram's own source)
+				if verifAgentInMessage {
+					h := verifJSONParse(q)
+					verifAssert(verifJSONStr(h, "AgentID", verifExporter(i).IP.String()), "C12: the published message names the exporter its own datagram came from")
+				}
 			}
 		}
 	}
